@@ -47,6 +47,15 @@ pub open spec fn tys_wf(v: Seq<STy>) -> bool { forall|i: int| 0 <= i < v.len() =
 pub fn is_valid_obj_class_name(x: &JavaStr) -> (b: bool)
     ensures b == sp_valid_obj(x@),
 { unimplemented!() }
+// TRUSTED: external_body is_valid_class_name / is_valid_arr_class_name (same reason): an array class name is whatever starts with `[` (the code checks no more: two TODOs), a class name is an array class name or a binary name
+#[verifier::external_body]
+pub fn is_valid_class_name(x: &JavaStr) -> (b: bool)
+    ensures b == ((x@.len() > 0 && x@[0] == '[') || sp_valid_obj(x@)),
+{ unimplemented!() }
+#[verifier::external_body]
+pub fn is_valid_arr_class_name(x: &JavaStr) -> (b: bool)
+    ensures b == (x@.len() > 0 && x@[0] == '['),
+{ unimplemented!() }
 '''
 
 P0 = 'old(chars).pos()'
@@ -288,7 +297,7 @@ def build(u):
     u.item(F, 'struct', 'ParsedMethodDescriptor', derives=[])
     u.raw(VIEWS)
     unsafe = [(r'unsafe \{ ([^{}]*) \}', r'\1')]
-    path = [(r'crate::tree::names::is_valid_obj_class_name', 'is_valid_obj_class_name'),
+    path = [(r'crate::tree::names::(is_valid_(?:obj_|arr_)?class_name)', r'\1'),
             (r'JavaCodePoint::from_char\(([^()]*)\)', r'\1')]
     u.fn(F, 'read_field_type', ret='res', canary=True,
          requires=['old(chars).wf()'],
